@@ -12,6 +12,7 @@
 (*         the monitor has to give back)                                   *)
 (*   calls ghost: number of Call actions on this object                    *)
 (*   pure  ghost: nothing but Call ever happened to this object            *)
+(*   null  the object is monitors.Null() -- see "the Null kind" below      *)
 (* What the monitor REPORTS (Monitor.y) is Y(o) = sy / k, element-wise;    *)
 (* Monitor.x / Monitor.id report x / id as stored.  Costs are integers so  *)
 (* that k * y and (k*y) / k are exact here exactly when they are exact in  *)
@@ -37,6 +38,10 @@
 (*   Extend(a, b)           m_a.extend(m_b)      (a # b)                   *)
 (*   Prepend(a, b)          m_a.prepend(m_b)     (a # b)                   *)
 (*   SetItem(a, i, b)       m_a[i] = m_b         (a # b, 0 <= i < len)     *)
+(*   SetSel(a, form, sel, b)  m_a[sel] = m_b, sel a list / int array /     *)
+(*                          bool mask (the numpy branch of __setitem__)    *)
+(*   SetSlice(a, sl, b)     m_a[start:stop] = m_b  (python list splice)    *)
+(*   GetMin(s)              observe m_s.min()      (no new object)         *)
 (*                                                                         *)
 (* Indexing forms of Monitor.__getitem__ (one branch of the code each):    *)
 (*   integer (python int "item", numpy integer "npitem"), possibly < 0:    *)
@@ -63,6 +68,26 @@
 (* the 1-tuple holding an integer (m[(i,)]: the code raises                *)
 (* AttributeError, an int has no .tolist()).                               *)
 (*                                                                         *)
+(* The Null kind.  monitors.Null() "always and reliably does nothing": an   *)
+(* object whose state never changes (NullInert) and whose reads are empty  *)
+(* (len 0, x = y = ()).  A python variable of the script may hold it       *)
+(* (k = NullK in KPairs).  As RECEIVER every call is a no-op: Null()(x, y) *)
+(* records nothing, extend / prepend / __setitem__ do nothing, a slice or  *)
+(* index of it is Null again (there is one Null object per process; it has *)
+(* no state, so the heap may list it more than once); `Null() + m` is a    *)
+(* TypeError in python: not enabled.  As ARGUMENT of + / extend / prepend  *)
+(* / __setitem__ (the instance Null() or the class Null, the harness       *)
+(* rotates) it behaves as an EMPTY monitor: + gives a copy of the left     *)
+(* operand, extend / prepend change nothing, m[i] = Null DELETES record i  *)
+(* and m[a:b] = Null deletes the range (a splice with nothing).  m[sel] =  *)
+(* Null with a list / array selection raises in numpy: not enabled.        *)
+(*                                                                         *)
+(* Read-only views (no action: the harness reads them on the object an     *)
+(* operation wrote and compares with the same Recs): ix / ax are x as an   *)
+(* iterator / array, iy / ay are the REPORTED cost y as iterator / array,  *)
+(* get_x() / get_id() are x / id, and _pos / _wts / pos / wts are None on  *)
+(* a monitor made without npts (with npts: see LogFile.tla, Load).         *)
+(*                                                                         *)
 (* Where C20 is silent the spec follows the code and says so:              *)
 (*  * the result of `+` and of a slice / index carries the k of the LEFT   *)
 (*    operand / the indexed monitor (deepcopy of self);  what + / extend / *)
@@ -75,6 +100,21 @@
 (*    records in place of record i and copies the STORED costs without     *)
 (*    re-scaling, so reported costs are preserved only if both monitors    *)
 (*    have the same effective k: that is SetItem's enabling condition.     *)
+(*    m[sel] = b (list / int array / mask) is numpy assignment on          *)
+(*    array(_x), array(_y), array(_id): the j-th selected position gets    *)
+(*    b's j-th record; enabled for len(b) = number of selected positions   *)
+(*    >= 1 without repeats (numpy would broadcast a single record and let  *)
+(*    the last of repeated positions win: not modelled), equal effective   *)
+(*    k, and ids that fit numpy's dtype (an all-integer id column cannot   *)
+(*    take a None: TypeError in the code).  m[a:b] = b is the python list  *)
+(*    splice (step None); an extended slice needs equal sizes: not         *)
+(*    modelled.                                                            *)
+(*  * m.min() is "the minimum monitor entry": the pair (x, y) of the FIRST *)
+(*    record whose REPORTED cost is minimal (numpy argmin over y/k).  For  *)
+(*    this one observation the cost ids are compared as integers: the      *)
+(*    harness uses an order-preserving concretisation for scripts with a   *)
+(*    GetMin (no nan, scalar costs).  Empty monitor: ValueError, not       *)
+(*    enabled.                                                             *)
 (*  * Monitor._info (messages) and ._npts/.label are not part of C20.      *)
 (*                                                                         *)
 (* The module is also the behaviour generator (spec -> code): `hist` is    *)
@@ -90,22 +130,31 @@ CONSTANTS KPairs,   \* set of <<k1, k2>>: scaling factors of the two initial mon
           Slices,   \* set of <<start, stop, step>> offered to Slice / TSlice (None allowed)
           Sels,     \* set of <<form, selection>> offered to Index (form in IndexForms)
           Items,    \* set of integers offered to GetItem
+          SetSels,  \* set of <<form, selection>> offered to SetSel (form in SetForms)
+          SetSlices, \* set of <<start, stop, None>> offered to SetSlice
           Ops       \* enabled operation names (subset of AllOps)
 
 None   == 1000
-AllOps == {"call", "slice", "tslice", "index", "item", "add", "extend", "prepend", "setitem"}
+NullK  == 7            \* "scaling factor" in KPairs that stands for: this variable holds monitors.Null()
+AllOps == {"call", "slice", "tslice", "index", "item", "add", "extend", "prepend", "setitem",
+           "setsel", "setslice", "min"}
 (* the concrete python shapes of an index (names of the hist entries; see header) *)
 ListForms  == {"ilist", "iarray", "tlist", "tarray"}     \* selection = sequence of ints, each in -n..n-1
 MaskForms  == {"imask", "lmask", "tmask"}                \* selection = sequence of n values 0/1 (False/True)
 IndexForms == ListForms \cup MaskForms
 ItemForms  == {"item", "npitem"}
+(* m[sel] = b: the hist entry is named after the shape of sel; no tuples (that branch is commented out in the code) *)
+SetForms   == {"s_ilist", "s_iarray", "s_imask", "s_lmask"}
+SelForm(f) == CASE f = "s_ilist" -> "ilist" [] f = "s_iarray" -> "iarray" [] f = "s_imask" -> "imask" [] f = "s_lmask" -> "lmask"
 Slots  == {1, 2}
 Z3     == <<0, 0, 0>>
 
 ASSUME Ops \subseteq AllOps /\ Free \in Nat
-ASSUME \A kp \in KPairs : kp[1] \in {None, 1, 2, -1} /\ kp[2] \in {None, 1, 2, -1}
+ASSUME \A kp \in KPairs : kp[1] \in {None, 1, 2, -1, NullK} /\ kp[2] \in {None, 1, 2, -1, NullK}
 ASSUME \A fs \in Sels : fs[1] \in IndexForms
 ASSUME Items \subseteq Int
+ASSUME \A fs \in SetSels : fs[1] \in SetForms
+ASSUME \A sl \in SetSlices : sl[3] = None
 
 -----------------------------------------------------------------------------
 (* k handling: tools._kdiv / _multiply / _divide *)
@@ -131,6 +180,22 @@ PySlice(a, b, c, n) ==
 
 Pick(q, idx) == [j \in 1..Len(idx) |-> q[idx[j] + 1]]
 
+(* python  q[a:b] = r  (step None): the records s..e-1 are replaced by r, with s, e the adjusted bounds and
+   e raised to s if below (list_ass_slice) *)
+SlBound(v, dflt, n) == IF v = None THEN dflt
+                       ELSE LET w == IF v < 0 THEN v + n ELSE v
+                            IN  IF w < 0 THEN 0 ELSE IF w > n THEN n ELSE w
+SpliceRange(q, a, b, r) ==
+  LET n == Len(q)
+      s == SlBound(a, 0, n)
+      e0 == SlBound(b, n, n)
+      e == IF e0 < s THEN s ELSE e0
+  IN  SubSeq(q, 1, s) \o r \o SubSeq(q, e + 1, n)
+(* numpy  q[idx] = r  for distinct 0-based positions idx, Len(idx) = Len(r) *)
+Put(q, idx, r) == [p \in 1..Len(q) |-> IF \E j \in 1..Len(idx) : idx[j] = p - 1
+                                        THEN r[CHOOSE j \in 1..Len(idx) : idx[j] = p - 1]
+                                        ELSE q[p]]
+
 (* numpy index semantics on the first axis of an array of length n.
    Norm: a negative index counts from the end.  A selection is Valid if numpy accepts it (else
    IndexError); Resolve gives the 0-based positions selected, in the order of the result *)
@@ -149,26 +214,38 @@ Splice(q, i, r) == SubSeq(q, 1, i) \o r \o SubSeq(q, i + 2, Len(q))
 
 -----------------------------------------------------------------------------
 (* monitor objects *)
-NewMon(k) == [k |-> k, x |-> << >>, sy |-> << >>, id |-> << >>, gy |-> << >>, calls |-> 0, pure |-> TRUE]
+NullObj   == [k |-> None, x |-> << >>, sy |-> << >>, id |-> << >>, gy |-> << >>, calls |-> 0, pure |-> TRUE, null |-> TRUE]
+NewMon(k) == IF k = NullK THEN NullObj
+             ELSE [k |-> k, x |-> << >>, sy |-> << >>, id |-> << >>, gy |-> << >>, calls |-> 0, pure |-> TRUE, null |-> FALSE]
+(* whatever is done to the Null object leaves it as it is *)
+Mut(A, A2) == IF A.null THEN A ELSE A2
 
 Y(o)    == [i \in 1..Len(o.sy) |-> Div(o.sy[i], EffK(o.k))]            \* Monitor.y
 Recs(o) == [i \in 1..Len(o.x) |-> <<o.x[i], Y(o)[i], o.id[i]>>]         \* what the monitor reports
 (* Monitor._get_y: the argument's stored costs divided by (k_arg / k_self) *)
 Conv(B, ka) == [i \in 1..Len(B.sy) |-> Div(B.sy[i] * EffK(ka), EffK(B.k))]
 
-Rec1(A, xv, yv, idv) ==
+Rec1(A, xv, yv, idv) == Mut(A,
   [A EXCEPT !.x = Append(@, xv), !.sy = Append(@, yv * EffK(A.k)), !.id = Append(@, idv),
-            !.gy = Append(@, yv), !.calls = @ + 1]
-Ext(A, B) ==
-  [A EXCEPT !.x = @ \o B.x, !.sy = @ \o Conv(B, A.k), !.id = @ \o B.id, !.gy = @ \o B.gy, !.pure = FALSE]
-Pre(A, B) ==
-  [A EXCEPT !.x = B.x \o @, !.sy = Conv(B, A.k) \o @, !.id = B.id \o @, !.gy = B.gy \o @, !.pure = FALSE]
-Sel(A, idx) ==
+            !.gy = Append(@, yv), !.calls = @ + 1])
+Ext(A, B) == Mut(A,
+  [A EXCEPT !.x = @ \o B.x, !.sy = @ \o Conv(B, A.k), !.id = @ \o B.id, !.gy = @ \o B.gy, !.pure = FALSE])
+Pre(A, B) == Mut(A,
+  [A EXCEPT !.x = B.x \o @, !.sy = Conv(B, A.k) \o @, !.id = B.id \o @, !.gy = B.gy \o @, !.pure = FALSE])
+Sel(A, idx) == Mut(A,
   [A EXCEPT !.x = Pick(@, idx), !.sy = Pick(@, idx), !.id = Pick(@, idx), !.gy = Pick(@, idx),
-            !.pure = FALSE, !.calls = 0]
-SetI(A, i, B) ==      \* stored costs copied raw (see header)
+            !.pure = FALSE, !.calls = 0])
+SetI(A, i, B) == Mut(A,     \* stored costs copied raw (see header)
   [A EXCEPT !.x = Splice(@, i, B.x), !.sy = Splice(@, i, B.sy), !.id = Splice(@, i, B.id),
-            !.gy = Splice(@, i, B.gy), !.pure = FALSE]
+            !.gy = Splice(@, i, B.gy), !.pure = FALSE])
+SetS(A, idx, B) ==          \* numpy assignment, stored costs copied raw
+  [A EXCEPT !.x = Put(@, idx, B.x), !.sy = Put(@, idx, B.sy), !.id = Put(@, idx, B.id),
+            !.gy = Put(@, idx, B.gy), !.pure = FALSE]
+SetR(A, a, b, B) == Mut(A,  \* list splice, stored costs copied raw
+  [A EXCEPT !.x = SpliceRange(@, a, b, B.x), !.sy = SpliceRange(@, a, b, B.sy), !.id = SpliceRange(@, a, b, B.id),
+            !.gy = SpliceRange(@, a, b, B.gy), !.pure = FALSE])
+(* numpy.array(ids) is an integer array iff every id is an integer: such a column cannot take a None *)
+IdsFit(ia, ib) == (\E j \in 1..Len(ia) : ia[j] = None) \/ (\A j \in 1..Len(ib) : ib[j] # None)
 
 -----------------------------------------------------------------------------
 VARIABLES heap,   \* sequence of all monitor objects created so far
@@ -210,6 +287,7 @@ GetItem(s, i) ==
 ItemOf(o, i) == Recs(o)[Norm(i, Len(o.x)) + 1]
 
 Add(t, a, b) ==
+  /\ ~heap[slot[a]].null                       \* Null() + m: TypeError
   /\ heap' = Append(heap, [Ext(heap[slot[a]], heap[slot[b]]) EXCEPT !.calls = 0])
   /\ slot' = [slot EXCEPT ![t] = Len(heap) + 1]
   /\ UNCHANGED rlog
@@ -226,17 +304,48 @@ Prepend(a, b) ==
 
 SetItem(a, i, b) ==
   /\ a # b
-  /\ i >= 0 /\ i < Len(heap[slot[a]].x)
-  /\ EffK(heap[slot[a]].k) = EffK(heap[slot[b]].k)
+  /\ IF heap[slot[a]].null THEN i = 0 ELSE i >= 0 /\ i < Len(heap[slot[a]].x)
+  /\ EffK(heap[slot[a]].k) = EffK(heap[slot[b]].k) \/ heap[slot[b]].null
   /\ heap' = [heap EXCEPT ![slot[a]] = SetI(@, i, heap[slot[b]])]
   /\ UNCHANGED <<slot, rlog>>
+
+SetSel(a, form, sel, b) ==
+  LET A == heap[slot[a]]
+      B == heap[slot[b]]
+      n == Len(A.x)
+  IN  /\ a # b /\ ~A.null /\ ~B.null
+      /\ form \in {"ilist", "iarray", "imask", "lmask"}
+      /\ Valid(form, sel, n)
+      /\ LET idx == Resolve(form, sel, n) IN
+            /\ Len(idx) >= 1 /\ Len(idx) = Len(B.x)
+            /\ \A p, q \in 1..Len(idx) : p # q => idx[p] # idx[q]
+            /\ EffK(A.k) = EffK(B.k)
+            /\ IdsFit(A.id, B.id)
+            /\ heap' = [heap EXCEPT ![slot[a]] = SetS(@, idx, B)]
+      /\ UNCHANGED <<slot, rlog>>
+
+SetSlice(a, sl, b) ==
+  /\ a # b
+  /\ sl[3] = None
+  /\ EffK(heap[slot[a]].k) = EffK(heap[slot[b]].k) \/ heap[slot[b]].null
+  /\ heap' = [heap EXCEPT ![slot[a]] = SetR(@, sl[1], sl[2], heap[slot[b]])]
+  /\ UNCHANGED <<slot, rlog>>
+
+(* m.min(): an observation; MinOf is the record whose (x, y) the pair has to be *)
+ArgMin(y) == CHOOSE i \in 1..Len(y) : /\ \A j \in 1..Len(y) : y[i] <= y[j]
+                                      /\ \A j \in 1..(i - 1) : y[j] # y[i]
+GetMin(s) ==
+  /\ ~heap[slot[s]].null /\ Len(heap[slot[s]].x) >= 1
+  /\ UNCHANGED <<heap, slot, rlog>>
+MinOf(o) == Recs(o)[ArgMin(Y(o))]
 
 -----------------------------------------------------------------------------
 (* script bookkeeping: a hist entry is
    <<op, t, a, b, i, <<start,stop,step>> or selection, <<x,y,id>>, obj, Recs(obj after the operation)>>
    (unused positions are 0); obj is the heap index of the object written or created (GetItem: the
-   object looked at).  op is the action's name, for Index / GetItem the FORM of the index;
-   <<x,y,id>> is the record passed to Call, for GetItem the record m[i] has to be the (x, y) of *)
+   object looked at).  op is the action's name, for Index / GetItem / SetSel the FORM of the index (SetSel: with
+   the prefix "s_"); <<x,y,id>> is the record passed to Call, for GetItem / GetMin the record m[i] / m.min() has to
+   be the (x, y) of; SetSel / SetSlice carry the selection / <<start,stop,None>> in the slice position *)
 Done  == Len(hist)
 Total == Len(warm) + Free
 H(op, t, a, b, i, sl, c, o) == hist' = Append(hist, <<op, t, a, b, i, sl, c, o, Recs(heap'[o])>>)
@@ -284,6 +393,15 @@ Next ==
           /\ \E a \in Slots, b \in Slots :
                \E i \in {0, Len(heap[slot[a]].x) - 1} :
                  SetItem(a, i, b) /\ H("setitem", 0, a, b, i, Z3, Z3, slot[a])
+       \/ /\ "setsel" \in Ops
+          /\ \E a \in Slots, b \in Slots, fs \in SetSels :
+               SetSel(a, SelForm(fs[1]), fs[2], b) /\ H(fs[1], 0, a, b, 0, fs[2], Z3, slot[a])
+       \/ /\ "setslice" \in Ops
+          /\ \E a \in Slots, b \in Slots, sl \in SetSlices :
+               SetSlice(a, sl, b) /\ H("setslice", 0, a, b, 0, sl, Z3, slot[a])
+       \/ /\ "min" \in Ops
+          /\ \E s \in Slots :
+               GetMin(s) /\ H("min", 0, s, 0, 0, Z3, MinOf(heap[slot[s]]), slot[s])
 
 Spec == Init /\ [][Next]_vars
 
@@ -315,20 +433,26 @@ IthRecord ==
   \A o \in Objs : heap[o].pure =>
      \A i \in 1..(Len(heap[o].x) - 1) : heap[o].x[i] < heap[o].x[i + 1]
 
-(* the two python variables never alias one object (every + / slice / index creates one) *)
+(* the two python variables never alias one object (every + / slice / index creates one;
+   but all entries with .null are the one Null object of the process) *)
 NoAlias == slot[1] # slot[2]
+
+(* the Null object never changes and reads as empty, whatever is done to it or with it *)
+NullInert == \A o \in Objs : heap[o].null => heap[o] = NullObj /\ Recs(heap[o]) = << >>
 
 (* ---- C20 as action properties ---- *)
 (* nothing but the receiver changes; +, slicing and every other form of indexing change no existing
    object at all (the monitor indexed included) and all but the integer index create exactly one;
    in particular the ARGUMENT of + / extend / prepend / __setitem__ is left as it was *)
 Creating == {"add", "slice", "tslice"} \cup IndexForms        \* operations that return a new monitor
+Observing == ItemForms \cup {"min"}                            \* operations that only look
+TakesArg  == {"extend", "prepend", "setitem", "setslice"} \cup SetForms
 ArgUnchanged ==
   [][LET e == hist'[Len(hist')] IN
-       /\ e[1] \in Creating \cup ItemForms => \A o \in Objs : heap'[o] = heap[o]
+       /\ e[1] \in Creating \cup Observing => \A o \in Objs : heap'[o] = heap[o]
        /\ e[1] \in Creating => e[8] = Len(heap) + 1 /\ Len(heap') = Len(heap) + 1
        /\ e[1] \notin Creating => Len(heap') = Len(heap)
-       /\ e[1] \in {"extend", "prepend", "setitem"} => heap'[slot[e[4]]] = heap[slot[e[4]]]
+       /\ e[1] \in TakesArg => heap'[slot[e[4]]] = heap[slot[e[4]]]
        /\ e[1] = "add" => heap'[slot[e[3]]] = heap[slot[e[3]]] /\ heap'[slot[e[4]]] = heap[slot[e[4]]]
        /\ \A o \in Objs : o # e[8] => heap'[o] = heap[o]]_vars
 
@@ -337,6 +461,9 @@ ConcatOrder ==
   [][LET e == hist'[Len(hist')]
          new == Recs(heap'[e[8]])
      IN
+     IF e[1] \notin Creating /\ heap[e[8]].null
+     THEN new = << >> /\ heap'[e[8]] = heap[e[8]]          \* done to Null: nothing happens
+     ELSE
        /\ e[1] = "call"    => new = Append(Recs(heap[e[8]]), e[7])
        /\ e[1] = "add"     => new = Recs(heap[slot[e[3]]]) \o Recs(heap[slot[e[4]]])
        /\ e[1] = "extend"  => new = Recs(heap[e[8]]) \o Recs(heap[slot[e[4]]])
@@ -349,7 +476,31 @@ ConcatOrder ==
        /\ e[1] \in ItemForms  => LET src == Recs(heap[e[8]])
                                  IN  /\ new = src
                                      /\ e[7] = src[Norm(e[5], Len(src)) + 1]
-       /\ e[1] = "setitem" => new = Splice(Recs(heap[e[8]]), e[5], Recs(heap[slot[e[4]]]))]_vars
+       /\ e[1] = "setitem" => new = Splice(Recs(heap[e[8]]), e[5], Recs(heap[slot[e[4]]]))
+       /\ e[1] = "setslice" => new = SpliceRange(Recs(heap[e[8]]), e[6][1], e[6][2], Recs(heap[slot[e[4]]]))
+       /\ e[1] \in SetForms =>
+            LET old == Recs(heap[e[8]])
+                arg == Recs(heap[slot[e[4]]])
+                idx == Resolve(SelForm(e[1]), e[6], Len(old))
+            IN  /\ Len(new) = Len(old)
+                /\ \A j \in 1..Len(idx) : new[idx[j] + 1] = arg[j]
+                /\ \A p \in 1..Len(old) : (\A j \in 1..Len(idx) : idx[j] # p - 1) => new[p] = old[p]
+       /\ e[1] = "min" => LET src == Recs(heap[e[8]])
+                          IN  /\ new = src
+                              /\ \E i \in 1..Len(src) : /\ e[7] = src[i]
+                                                        /\ \A j \in 1..Len(src) : src[i][2] <= src[j][2]
+                                                        /\ \A j \in 1..(i - 1) : src[j][2] > src[i][2]]_vars
+
+(* Null as an argument is an empty monitor: + copies the left operand, extend / prepend change nothing
+   that is reported, m[i] = Null removes exactly record i *)
+NullNeutral ==
+  [][LET e == hist'[Len(hist')] IN
+       (e[1] \in {"add", "extend", "prepend", "setitem"} /\ heap[slot[e[4]]].null) =>
+          /\ e[1] = "add" => Recs(heap'[e[8]]) = Recs(heap[slot[e[3]]])
+          /\ e[1] \in {"extend", "prepend"} => Recs(heap'[e[8]]) = Recs(heap[e[8]])
+          /\ e[1] = "setitem" /\ ~heap[e[8]].null =>
+                LET old == Recs(heap[e[8]])
+                IN  Recs(heap'[e[8]]) = SubSeq(old, 1, e[5]) \o SubSeq(old, e[5] + 2, Len(old))]_vars
 
 (* a list / array index gives one record per entry of the selection (order, repeats), a mask one
    per True; the new monitor has the k of the monitor it was taken from (+: of the left operand) *)
@@ -384,7 +535,8 @@ ASSUME \A n \in SliceLens :
                        /\ \A p \in 0..(n - 1) : (fs[2][p + 1] = 1) <=> (\E j \in 1..Len(idx) : idx[j] = p)
 
 -----------------------------------------------------------------------------
-(* emission: one line per complete script *)
+(* emission: one line per complete script (k of the two initial objects; NullK: it is the Null) *)
+KOf(o) == IF o.null THEN NullK ELSE o.k
 Emit == (Done = Total) =>
-          PrintT(<<"@@", ToJson([k |-> <<heap[1].k, heap[2].k>>, s |-> hist])>>)
+          PrintT(<<"@@", ToJson([k |-> <<KOf(heap[1]), KOf(heap[2])>>, s |-> hist])>>)
 =============================================================================
